@@ -19,6 +19,7 @@ func parserFamily(c *Ctx, kind string) []*family.Grammar {
 	var gs []*family.Grammar
 	gs = append(gs, family.Long()...) // first: their jobs are the longest
 	gs = append(gs, family.Shapes()...)
+	gs = append(gs, family.Emission()...)
 	gs = append(gs, family.EndLookahead()...)
 	basis := family.Dedup(family.Basis(size))
 	if !c.Quick() {
